@@ -36,7 +36,8 @@ TRUSTED = [
     "modelled: Path.from_nodes (nk / nk-list modes exactly; dk / length modes with the per-segment count as input), "
     "get_refined, getKline (distances as input), get_K_list batching, the index map of TABresult.self_to_path",
     "not modelled (oracle only): evaluate_k_path -> run() -> process() (serial / ray), TabulatorAll, TABresult.__add__, "
-    "KBandResult.to_path, Data_K evaluation; periodicity of the tabulated quantities in k (C04)",
+    "KBandResult.to_path, Data_K evaluation; periodicity of the tabulated quantities in k (C04); component extraction "
+    "TABresult.get_data / KBandResult.get_component (tuple, string, trace, norm, sq) for ranks 0-3",
     "the 1e-5 tolerance of the self_to_path assertion is modelled as exact equality modulo 1 (generators use dyadic "
     "k-points; non-matching points are >= 1/64 away)",
 ]
@@ -47,7 +48,12 @@ RULE = ("corr: random node lists (2-6 nodes, None breaks, repeated nodes, coordi
         "Berry curvature), serial and stub-parallel with random completion order, k_batch from 1 to beyond the path "
         "length; getKline / get_refined additionally on every other public constructor: Path(k_list, labels full / "
         "partial / ends only / empty / None, breaks), Path.from_dict(as_dict), Path.sphere, Path.spheroid, Path.seekpath "
-        "(increments compared with independently computed Cartesian step lengths, with and without break_thresh).  non-trivial = path with >= 2 segments or a break; distinct = distinct (op, inputs)")
+        "(increments compared with independently computed Cartesian step lengths, with and without break_thresh); "
+        "tensor-valued tabulators of rank 2 and 3 (DerBerryCurvature - not symmetric in its indices -, InvMass, "
+        "Der2BerryCurvature) along the path, and every way of reading a component from the result: "
+        "TABresult.get_data(quantity, iband, component) with integer tuples, x/y/z strings (either case), None, trace, "
+        "norm, sq and band selections, against the element of the single-point tensor; get_component directly on random "
+        "arrays of rank 0-3 with 1-4 leading axes.  non-trivial = path with >= 2 segments or a break; distinct = distinct (op, inputs)")
 
 TOL = 1e-12
 
@@ -548,7 +554,7 @@ class StubRay:
         return x.val
 
 
-def run_path(system, path, quantities, parallel, k_batch, stub):
+def run_path(system, path, quantities, parallel, k_batch, stub, tabulators=None):
     from wannierberri.evaluate_k import evaluate_k_path
     saved = sys.modules.get("ray", None)
     had = "ray" in sys.modules
@@ -557,13 +563,120 @@ def run_path(system, path, quantities, parallel, k_batch, stub):
             sys.modules["ray"] = stub
         with quiet(), warnings.catch_warnings():
             warnings.simplefilter("ignore")
-            return evaluate_k_path(system, path=path, quantities=quantities, parallel=parallel, k_batch=k_batch)
+            return evaluate_k_path(system, path=path, quantities=quantities, tabulators=tabulators, parallel=parallel,
+                                   k_batch=k_batch)
     finally:
         if parallel:
             if had:
                 sys.modules["ray"] = saved
             else:
                 sys.modules.pop("ray", None)
+
+
+
+XYZ = "xyz"
+
+
+def component_specs(rng, rank, nmax=8):
+    """ways of asking for one Cartesian component of a rank-`rank` tensor, with the index tuple each one means:
+    tuples of integers, strings of x/y/z (either case), and the derived components trace / norm / sq"""
+    import itertools
+    specs = []
+    if rank == 0:
+        return [(None, "full")]
+    allidx = list(itertools.product(range(3), repeat=rank))
+    for idx in (allidx if len(allidx) <= nmax else rng.sample(allidx, nmax)):
+        specs.append((tuple(idx), idx))
+        st = "".join(XYZ[i] for i in idx)
+        specs.append((st.upper() if rng.random() < 0.3 else st, idx))
+    specs.append((None, "full"))
+    if rank == 1:
+        specs += [("norm", "norm"), ("sq", "sq")]
+    else:
+        specs.append(("trace", "trace"))
+    return specs
+
+
+def component_reference(T, meaning):
+    """T = full tensor with the Cartesian indices last (..., 3, 3, ...); independent evaluation of one component"""
+    if meaning == "full":
+        return T
+    if meaning == "norm":
+        return np.sqrt((T ** 2).sum(axis=-1))
+    if meaning == "sq":
+        return (T ** 2).sum(axis=-1)
+    return T[(Ellipsis,) + tuple(meaning)]
+
+
+def trace_reference(T, rank):
+    return sum(T[(Ellipsis,) + (i,) * rank] for i in range(3))
+
+
+def get_component_oracle(ctx, scale):
+    """KBandResult-level: get_component(data, ndim, component) returns data[..., a, b, ...] for every way of naming
+    the component (tuple or string), for every rank and every leading shape"""
+    from wannierberri.result.kbandresult import get_component, NoComponentError
+    rng = ctx.rng
+    nprng = np.random.RandomState(rng.getrandbits(31))
+    for it in range(ctx.n(60, 400) * scale):
+        rank = rng.choice([0, 1, 1, 2, 2, 2, 3, 3])
+        lead = rng.choice([(rng.randint(1, 4), rng.randint(1, 4)), (rng.randint(1, 5),), (2, 2, 3, rng.randint(1, 3))])
+        T = nprng.uniform(-1, 1, lead + (3,) * rank)
+        for comp, meaning in component_specs(rng, rank, nmax=6):
+            if comp is None and rank >= 1:
+                continue      # "no component" of a tensor is resolved by the callers (TABresult.get_data), see check_get_data
+            case = dict(fn="get_component", shape=list(T.shape), rank=rank, component=comp, data=T.tolist())
+            ctx.case(signature=("comp", T.shape, rank, comp, float(T.flat[0])), nontrivial=rank >= 2)
+            ctx.count(f"oracle.get_component.rank{rank}.{'tuple' if isinstance(comp, tuple) else ('none' if comp is None else 'str')}")
+            with ctx.attempt("get_component", case):
+                with quiet():
+                    got = get_component(T, rank, comp)
+                want = trace_reference(T, rank) if meaning == "trace" else component_reference(T, meaning)
+                if np.shape(got) != np.shape(want) or np.abs(np.asarray(got) - want).max() > 1e-14:
+                    ctx.fail(f"get_component(rank {rank}, component={comp!r}) does not return data[..., "
+                             f"{meaning}] (shape {np.shape(got)} vs {np.shape(want)})", case)
+        # a component that does not exist must be refused, not silently mapped to something else
+        if rank in (0, 1):
+            bad = "xy" if rank == 1 else "x"
+            try:
+                with quiet():
+                    get_component(T, rank, bad)
+                ctx.fail(f"get_component(rank {rank}, component={bad!r}) did not raise NoComponentError",
+                         dict(fn="get_component", rank=rank, component=bad))
+            except NoComponentError:
+                pass
+            except Exception as ex:  # noqa
+                ctx.fail(f"get_component(rank {rank}, component={bad!r}) raised {type(ex).__name__} instead of "
+                         f"NoComponentError", dict(fn="get_component", rank=rank, component=bad))
+
+
+def check_get_data(ctx, rng, res, ref, names, nk, case, scale_q):
+    """TABresult.get_data(quantity, iband, component): every component of every tabulated quantity, named by tuple or
+    by string, with band selections, equals the corresponding element of the single-point tensor - per path point"""
+    nband = res.nband
+    for q in names:
+        full = np.array([ref[j][q] for j in range(nk)])          # (nk, nband, 3, 3, ...)
+        rank = full.ndim - 2
+        for comp, meaning in component_specs(rng, rank, nmax=9):
+            ib = rng.choice([None, None, sorted(rng.sample(range(nband), rng.randint(1, nband)))])
+            c2 = dict(case, fn="TABresult.get_data", quantity=q, component=comp, iband=ib)
+            ctx.case(signature=("get_data", q, comp, str(ib), float(full.flat[0])), nontrivial=rank >= 1)
+            ctx.count(f"oracle.get_data.rank{rank}.{'tuple' if isinstance(comp, tuple) else ('none' if comp is None else 'str')}")
+            with ctx.attempt(f"TABresult.get_data({q}, component={comp!r})", c2):
+                with quiet():
+                    got = np.asarray(res.get_data(quantity=q, iband=ib, component=comp))
+                want = trace_reference(full, rank) if meaning == "trace" else component_reference(full, meaning)
+                if ib is not None:
+                    want = want[:, ib]
+                if got.shape != want.shape:
+                    ctx.fail(f"get_data({q}, component={comp!r}, iband={ib}): shape {got.shape}, expected {want.shape}", c2)
+                    continue
+                err = np.abs(got - want).reshape(nk, -1).max(axis=1)
+                j = int(np.argmax(err))
+                tolq = 1e-9 * (scale_q[q] ** (2 if meaning == "sq" else 1))
+                if err[j] > tolq:
+                    ctx.fail(f"get_data({q}, component={comp!r}) at path point {j} differs from the {meaning} element of "
+                             f"the single-point value by {err[j]:.3e}", c2)
 
 
 def eval_oracle(ctx, scale):
@@ -573,7 +686,15 @@ def eval_oracle(ctx, scale):
     from wannierberri.grid.path import Path
     rng = ctx.rng
     rs = np.random.RandomState(rng.getrandbits(31))
+    from wannierberri.calculators import tabulate as caltab
     quantities = ["energy", "band_gradients", "berry_curvature"]
+
+    def make_tabs(with_rank3):
+        # tensor-valued tabulators of rank 2 (not symmetric in its two indices: [a,b] = d_b Omega_a) and rank 3
+        t = {"Der_berry": caltab.DerBerryCurvature(print_comment=False), "InvMass": caltab.InvMass(print_comment=False)}
+        if with_rank3:
+            t["Der2_berry"] = caltab.Der2BerryCurvature(print_comment=False)
+        return t
     for isys in range(ctx.n(2, 24) * scale):
         with quiet():
             system = rand_system(rs, num_wann=int(rs.randint(2, 5)), nR=6, matrices=("Ham", "AA"))
@@ -591,12 +712,21 @@ def eval_oracle(ctx, scale):
             nk = len(K)
             case0 = dict(nodes=to_f(nodes), labels=labels, kw=kw, K_list=K.tolist(), num_wann=system.num_wann)
             ref = None
+            with_rank3 = (isys % 3 == 0)
+            tabnames = list(make_tabs(with_rank3))
+            names = quantities + tabnames
             with ctx.attempt("evaluate_k (reference)", case0):
                 with quiet():
-                    ref = [evaluate_k(system, k=K[j], quantities=quantities, return_single_as_dict=True) for j in range(nk)]
+                    ref = []
+                    for j in range(nk):
+                        r = dict(evaluate_k(system, k=K[j], quantities=quantities, return_single_as_dict=True))
+                        rt = evaluate_k(system, k=K[j], calculators=make_tabs(with_rank3), return_single_as_dict=True)
+                        for t in tabnames:
+                            r[t] = np.array(rt[t].data[0])
+                        ref.append(r)
             if ref is None:
                 continue
-            scale_q = {q: 1 + max(np.abs(r[q]).max() for r in ref) for q in quantities}
+            scale_q = {q: 1 + max(np.abs(r[q]).max() for r in ref) for q in names}
             configs = [(False, nk + 3), (False, 1), (True, rng.randint(1, max(1, nk // 2))), (True, 1)]
             configs += [(rng.random() < 0.5, rng.randint(1, nk + 1)) for _ in range(ctx.n(1, 3))]
             if ctx.tier == "thorough" and isys == 0 and ipath == 0:
@@ -609,13 +739,13 @@ def eval_oracle(ctx, scale):
                 ctx.count("oracle.eval.parallel_stub" if parallel else "oracle.eval.serial")
                 ctx.count(f"oracle.eval.k_batch{'=1' if kb == 1 else ('>=len' if kb >= nk else '<len')}")
                 with ctx.attempt("evaluate_k_path", case):
-                    res = run_path(system, path, quantities, parallel, kb, stub)
+                    res = run_path(system, path, quantities, parallel, kb, stub, tabulators=make_tabs(with_rank3))
                     if parallel and stub.nwait == 0:
                         ctx.fail("parallel=True did not go through ray.wait (stub not used)", case)
                     if not np.array_equal(np.array(res.kpoints), K):
                         ctx.fail("evaluate_k_path: result.kpoints are not the path's k-points in path order", case)
                         continue
-                    for q in quantities:
+                    for q in names:
                         data = res.results[q].data
                         if data.shape[0] != nk:
                             ctx.fail(f"evaluate_k_path: {q} has {data.shape[0]} rows for {nk} path points", case)
@@ -629,6 +759,9 @@ def eval_oracle(ctx, scale):
                                      f"differs from evaluate_k at that point by {err[jbad]:.3e}"
                                      + (f" (it equals the value of point {where[0]})" if where else ""), case)
                             break
+                    else:
+                        if (parallel, kb) in configs[:2] or rng.random() < 0.3:
+                            check_get_data(ctx, rng, res, ref, names, nk, case, scale_q)
 
 
 def oracle(ctx, scale):
@@ -692,6 +825,7 @@ def oracle(ctx, scale):
                     p2 = p.get_refined(factor)
                 check_refined(ctx, p, p2, factor, dict(case, factor=factor))
                 check_kline(ctx, p2, dict(case, factor=factor), f"get_refined({factor}) of " + what)
+    get_component_oracle(ctx, scale)
     eval_oracle(ctx, scale)
 
 
